@@ -24,7 +24,7 @@ ACC_BOUND = 5.0e-3  # |V - V_exact| on resolved densities (the test-suite's own 
 SPREAD_BOUND = 1.0e-8  # between RNG draws: max(SPREAD_BOUND, SPREAD_TOL_FACTOR*tol); measured ~1e-15 (s-type), 1e-3*tol (l=1 channel)
 SPREAD_TOL_FACTOR = 0.05
 LIN_FACTOR = 5.0  # linearity residual <= LIN_FACTOR * tol * scale (measured <= 0.05*tol)
-CORE_BOUND = 1.0e-7  # robust solver on its own fitted core model (measured ~1e-16)
+CORE_BOUND = 1.0e-6  # robust solver on its own fitted core model (measured <= 2.2e-8 over all grid families; a real defect shows >= 1e-3)
 ROBUST_ELEMENTS = (1, 6, 7, 8, 17)
 MAX_NODES = 30000
 
@@ -104,7 +104,7 @@ def _potential(spec, pts, c0):
     return out
 
 
-MOL_ACC_BOUND = 2.0e-2  # multi-centre molecular grids (40-50 radial nodes, degree 11-15 per atom): the test-suite's own level is 1e-2; measured <= 3.3e-3 (gross errors are O(0.1-1))
+MOL_ACC_BOUND = 3.0e-2  # multi-centre molecular grids (40-50 radial nodes, degree 11-15 per atom): the test-suite's own level is 1e-2; measured <= 5.6e-3 (gross errors are O(0.1-1))
 MOL_SPREAD_TOL_FACTOR = 0.5  # many tiny high-l channels, each refined from its own draw (measured <= 0.02 tol)
 
 
@@ -835,7 +835,8 @@ class PoissonSeamEngine:
 
         def dens():
             k = rng.randint(1, n)
-            return [["s", round(rng.uniform(0.3, 1.5), 3), round(rng.uniform(0.8, 2.0), 3), i] for i in rng.sample(range(n), k)]
+            sg = rng.choice([1.0, 1.0, 1.0, -1.0])
+            return [["s", sg * round(rng.uniform(0.3, 1.5), 3), round(rng.uniform(0.8, 2.0), 3), i] for i in rng.sample(range(n), k)]
 
         d = {"rho1": dens(), "rho2": dens(), "a": round(rng.uniform(0.3, 2.0), 3), "b": round(rng.uniform(-1.0, 1.5), 3)}
         ops = []
@@ -897,7 +898,8 @@ class PoissonSeamEngine:
         grid["r_interval"] = [ri[0], max(ri[1], 2 * grid["rmin"])]  # must lie inside the transform's domain [rmin, inf)
 
         def dens():
-            out = [["s", round(rng.uniform(0.3, 1.5), 3), round(rng.uniform(1.0, 4.0), 3)] for _ in range(rng.randint(1, 2))]
+            sg = rng.choice([1.0, 1.0, 1.0, -1.0])  # (a charge density may be negative everywhere: an anion, a difference density)
+            out = [["s", sg * round(rng.uniform(0.3, 1.5), 3), round(rng.uniform(1.0, 4.0), 3)] for _ in range(rng.randint(1, 2))]
             if ptype and rng.random() < 0.7:
                 out.append([rng.choice(["z", "x", "y", "g"]), round(rng.uniform(0.2, 0.8), 3), round(rng.uniform(1.0, 2.5), 3)])
             return out
